@@ -557,7 +557,7 @@ func (t *decideTr) stmts(ss []ast.Stmt, fall string) (string, error) {
 			return t.stmts(rest, fall)
 		}
 		// trace mode, outside the loop body: the loop as a whole is one effect (its body is translated on its own)
-		if t.spec.trace != nil && !t.spec.loopBody && !hasReturn(x.Body.List) {
+		if t.spec.trace != nil && (t.spec.loopBody || !hasReturn(x.Body.List)) {
 			cont, err := t.stmts(rest, fall)
 			if err != nil {
 				return "", err
